@@ -3,6 +3,7 @@ package main
 import (
 	"errors"
 	"fmt"
+	"io"
 	"reflect"
 	"time"
 
@@ -56,6 +57,74 @@ type HMsg struct {
 	K  map[HKey]HList
 }
 
+// ---- custom marshalers (register.go, case Marshaler / case encoding.BinaryMarshaler) ----
+// The model sees a marshaler value as its abstract state (a byte string) and the registry entry as the
+// pair of the user's functions (Edf/Model.v: RMarsh mar_xor unmar_xor / RMarsh mar_rev unmar_rev).
+
+// HMar: edf.Marshaler / edf.Unmarshaler.  State = Data (nil and empty are one state); the payload is
+// Data with every byte xor 0x5a, streamed in chunks so that the buffer grows INSIDE MarshalEDF.
+type HMar struct{ Data []byte }
+
+func (m HMar) MarshalEDF(w io.Writer) error {
+	const chunk = 1500
+	for i := 0; i < len(m.Data); i += chunk {
+		j := i + chunk
+		if j > len(m.Data) {
+			j = len(m.Data)
+		}
+		p := make([]byte, j-i)
+		for k := range p {
+			p[k] = m.Data[i+k] ^ 0x5a
+		}
+		if _, err := w.Write(p); err != nil {
+			return err
+		}
+	}
+	return nil
+}
+
+func (m *HMar) UnmarshalEDF(b []byte) error {
+	m.Data = make([]byte, len(b))
+	for k := range b {
+		m.Data[k] = b[k] ^ 0x5a
+	}
+	return nil
+}
+
+// HBin: encoding.BinaryMarshaler / BinaryUnmarshaler.  State = S; the payload is S reversed.
+type HBin struct{ S string }
+
+func (m HBin) MarshalBinary() ([]byte, error) {
+	p := make([]byte, len(m.S))
+	for k := range p {
+		p[k] = m.S[len(m.S)-1-k]
+	}
+	return p, nil
+}
+
+func (m *HBin) UnmarshalBinary(b []byte) error {
+	p := make([]byte, len(b))
+	for k := range p {
+		p[k] = b[len(b)-1-k]
+	}
+	m.S = string(p)
+	return nil
+}
+
+// a marshaler value that comes late in a message: the buffer is nearly full when MarshalEDF starts
+type HLate struct {
+	Pad  []byte
+	M    HMar
+	Tail string
+	B    HBin
+	N    int16
+}
+
+var (
+	hmarType = reflect.TypeOf(HMar{})
+	hbinType = reflect.TypeOf(HBin{})
+)
+
 type regType struct {
 	Short string
 	Type  reflect.Type
@@ -74,7 +143,8 @@ var sentinels = []error{
 
 func registerAll() {
 	for _, v := range []any{HInt(0), HI8(0), HU16(0), HStr(""), HF32(0), HF64(0), HBool(false),
-		HEmpty{}, HPoint{}, HKey{}, HZArr{}, HList{}, HAnyList{}, HArr{}, HMap{}, HRec{}, HMsg{}} {
+		HEmpty{}, HPoint{}, HKey{}, HZArr{}, HList{}, HAnyList{}, HArr{}, HMap{}, HRec{}, HMsg{},
+		HMar{}, HBin{}, HLate{}} {
 		if err := edf.RegisterTypeOf(v); err != nil {
 			panic(fmt.Sprintf("register %T: %v", v, err))
 		}
